@@ -5,7 +5,7 @@ from __future__ import annotations
 
 import ast
 from dataclasses import dataclass, field
-from typing import Dict, List, Optional, Set, Tuple
+from typing import Any, Dict, List, Optional, Set, Tuple
 
 from sa.core import ClassInfo, FuncInfo, Program, dotted, src, walk_no_nested
 
@@ -20,6 +20,27 @@ class GlobalVar:
     readers: Dict[str, List[int]] = field(default_factory=dict)
     mutators: Dict[str, List[int]] = field(default_factory=dict)
     init: str = ""
+
+
+_SHADOW_CACHE: Dict[Tuple[int, str, str], bool] = {}
+
+
+def _instance_shadows(P: Program, cls: Any, attr: str) -> bool:
+    """some method of the class, a base or a subclass assigns `self.<attr> = ...` (the instance then has its own object), or the class is a
+    dataclass declaring the attribute as a field"""
+    key = (id(P), cls.qualname, attr)
+    if key not in _SHADOW_CACHE:
+        fam = list(P.mro(cls)) + P.subclasses(cls.qualname)
+        hit = False
+        for c in fam:
+            for f in c.methods.values():
+                for n in walk_no_nested(f.node):
+                    if isinstance(n, (ast.Assign, ast.AnnAssign)):
+                        for t in (n.targets if isinstance(n, ast.Assign) else [n.target]):
+                            if isinstance(t, ast.Attribute) and t.attr == attr and isinstance(t.value, ast.Name) and t.value.id == "self":
+                                hit = True
+        _SHADOW_CACHE[key] = hit
+    return _SHADOW_CACHE[key]
 
 
 def inventory(P: Program) -> Dict[str, GlobalVar]:
@@ -108,6 +129,12 @@ def inventory(P: Program) -> Dict[str, GlobalVar]:
                 elif isinstance(base, ast.Attribute) and isinstance(base.value, ast.Name) and base.value.id == "cls" and cls is not None:
                     got = P.lookup_attr(cls, base.attr)
                     if got is not None and _mutable_init(got[1]):
+                        q = f"{got[0].qualname}.{base.attr}"
+                        init = src(got[1])
+                elif isinstance(base, ast.Attribute) and isinstance(base.value, ast.Name) and base.value.id == "self" and cls is not None and f.params and f.params[0] == "self":
+                    # a class-level mutable default reached through an instance: shared by all instances unless some method gives the instance its own (`self.X = ...`)
+                    got = P.lookup_attr(cls, base.attr)
+                    if got is not None and _mutable_init(got[1]) and not _instance_shadows(P, cls, base.attr):
                         q = f"{got[0].qualname}.{base.attr}"
                         init = src(got[1])
                 elif isinstance(base, ast.Attribute):
@@ -461,3 +488,39 @@ def report_handrolled_memos(P: Program, rep: Any, rule: str, prefixes: Tuple[str
                         f"{f.name} keeps its result in `{cont}` under a key that leaves out the parameter(s) {omitted} the result depends on: a later call that differs only there "
                         f"is answered with the earlier call's result - {consequence}"))
     rep.instance(rule, "handrolled-memos-examined", nontrivial=False, sample={"lookup-and-store sites": n})
+
+
+SEQUENTIALLY_HARMLESS = {
+    "vtlengine.ViralPropagation._current_registry": "replaced by InterpreterAnalyzer.visit_Start at the start of every semantic pass, before any reader of the same run: one call "
+                                                    "after another, each run reads the registry it installed itself (the interleaved case is C17's open finding)",
+    "vtlengine.DataTypes.TimeHandling.SingletonMeta._instances": "singleton metaclass: one instance per class by design; its only user (PeriodDuration) is constructed without arguments "
+                                                                 "and carries no per-call state",
+}
+
+
+def report_written_globals(P: Program, rep: Any, rule: str, prefixes: Tuple[str, ...], consequence: str, floor: int = 1) -> None:
+    """Sequential form of the shared-state inventory (C17 R17.2), restricted to the modules of one property: a module-level name or class
+    attribute that a FUNCTION writes or mutates outlives the call, so what a later call computes can depend on the calls before it.  The
+    globals C17 classifies as harmless (one reason each) are exempt here for the same reason."""
+    from sa.checks.c17 import CONFINED, SAFE, SAFE_IF_READERS_UNREACHABLE
+    from sa.core import Finding
+    G = inventory(P)
+    n = 0
+    for q, gvar in sorted(G.items()):
+        if not q.startswith(prefixes):
+            continue
+        n += 1
+        writers = sorted(set(gvar.writers) | set(gvar.mutators))
+        rep.instance(rule, f"global/{q}", nontrivial=bool(writers), sample={"global": q, "written_by": writers[:3]} if writers else None)
+        if not writers:
+            continue
+        why = SAFE.get(q) or (SAFE_IF_READERS_UNREACHABLE.get(q) or (None, None))[1] or (CONFINED.get(q) or (None, None))[1] or SEQUENTIALLY_HARMLESS.get(q)
+        if why:
+            rep.exemption(rule, f"global/{q}", why)
+            continue
+        w0 = P.functions.get(writers[0])
+        rep.add(Finding(rule, f"{rule}/global/{q}", w0.module.rel if w0 else "", (gvar.writers.get(writers[0]) or gvar.mutators.get(writers[0]) or [0])[0], writers[0],
+                        f"process-global `{q}` is written by {', '.join(w.split('.')[-1] for w in writers[:3])} and outlives the call: {consequence}"))
+    rep.instance(rule, "inventory", sample={"globals in the whole package": len(G), "in the modules of this rule": n})
+    rep.floor(f"{rule} globals inventoried (whole package)", len(G), 10)
+    rep.floor(f"{rule} globals inventoried", n, floor)
